@@ -1,13 +1,717 @@
-//! C07 — stub (not built yet; not registered in MANIFEST.json).
-use super::*;
+//! C07 — structural edits relocate content exactly like a reference grid.
+//!
+//! State is built through the public API only (`gen::grid::build_book`), a history of
+//! 1..40 abstract operations is resolved against the reference model (`model::grid`) so
+//! that every precondition holds by construction, and after EVERY operation the
+//! public-getter dump of EVERY sheet is compared with the model.
+//!
+//! Projection compared (exactly what the statement names):
+//! * cells: position, value text, style (as a tag), hyperlink (on the cell);
+//! * explicitly set row heights / column widths (+ hidden flag). Row/column entries that
+//!   carry nothing but the defaults the API creates as a side effect of `get_cell_mut`
+//!   (height 0 / width 8.38, not hidden, no style) are NOT part of the projection;
+//! * merged rectangles, comment anchors (+ text), conditional-format ranges (per rule
+//!   priority tag), the auto-filter range;
+//! * every coordinate of the dump (default dimension entries included) lies inside
+//!   1..16384 x 1..1048576, start <= end;
+//! * no panic.
+//! Metamorphic: `remove(p,n) . insert(p,n)` on a clone restores the pre-insert projection;
+//! move leaves (source rectangle minus destination rectangle) empty.
+//! Ranges that PARTLY overlap a removed band: own sub-check, weak oracle (no panic, inside
+//! the grid, start <= end; at most one surviving range per such object).
+use super::Prop;
+use crate::engine::*;
+use crate::gen::grid::*;
+use crate::model::grid::*;
+use proptest::prelude::*;
+use serde::{Deserialize, Serialize};
+use std::collections::BTreeMap;
+use umya_spreadsheet::{Range, Spreadsheet, Worksheet};
 
 pub fn prop() -> Prop {
     Prop {
         id: "C07",
-        describe: |_| {},
-        subs: no_subs,
-        extra: no_extra,
-        replay_extra: no_replay_extra,
-        watchdog_s: (900, 7200),
+        describe,
+        subs,
+        extra: super::no_extra,
+        replay_extra: super::no_replay_extra,
+        watchdog_s: (900, 14400),
     }
+}
+
+fn describe(ctx: &Ctx) {
+    ctx.rule("workbooks of 1..3 sheets built through the public API (tagged cells with optional style/hyperlink, explicit row heights and column widths, disjoint merges, comments, conditional formats, auto-filter, optional content next to the grid limits) x histories of 1..40 operations {insert/remove rows/columns at workbook level by sheet name and at sheet level, columns by letter or index, move_range, copy_range, set value, remove cell}; positions are aimed at object boundaries (start-1, start, start+1, end, end+1), at 1 and at the grid limits; counts at 1.., exact cover, one short, one past. Non-trivial = the history contains an insert/remove whose band precedes or intersects at least one object, or a move/copy with a non-empty source; distinct by serialised case");
+    ctx.assume("a rectangle is shifted corner by corner: an insert point inside a range makes it grow, a removed band strictly inside a range makes it shrink (needed for remove-undoes-insert)");
+    ctx.assume("ranges that partly overlap a removed band are only generated in the sub-check `partial-overlap` and judged by the weak oracle (no panic, inside the grid, start <= end)");
+    ctx.assume("hyperlinks live on cells in this API; for move/copy the statement does not name them, so the hyperlink of a cell written by move/copy is not compared when source or overwritten cell had one");
+    ctx.assume("no formulas are placed in cells (reference adjustment is C08); every generated cell has a non-empty value, so 'non-blank source cell' is unambiguous");
+}
+
+// ---------------------------------------------------------------------------------------
+// case
+
+#[derive(Clone, Debug, Serialize, Deserialize)]
+pub struct Case {
+    pub sheets: Vec<SheetSpec>,
+    pub ops: Vec<AOp>,
+    /// stratum: removal bands may partly overlap range objects (weak oracle for those)
+    pub partial: bool,
+}
+
+fn op_kinds() -> Vec<(u32, AKind)> {
+    vec![
+        (3, AKind::InsertRows),
+        (3, AKind::InsertCols),
+        (3, AKind::RemoveRows),
+        (3, AKind::RemoveCols),
+        (2, AKind::Move),
+        (2, AKind::Copy),
+        (2, AKind::SetValue),
+        (1, AKind::RemoveCell),
+    ]
+}
+
+fn case_strategy(partial: bool, max_cells: usize) -> BoxedStrategy<Case> {
+    (
+        prop::collection::vec(sheet_spec(max_cells, true), 1..=3),
+        prop::collection::vec(aop(op_kinds()), 1..=40),
+    )
+        .prop_map(move |(sheets, ops)| Case { sheets, ops, partial })
+        .boxed()
+}
+
+fn strat_clean(t: Tier) -> BoxedStrategy<Case> {
+    case_strategy(false, t.pick(12, 24))
+}
+
+fn strat_partial(t: Tier) -> BoxedStrategy<Case> {
+    case_strategy(true, t.pick(12, 24))
+}
+
+fn subs() -> Vec<Box<dyn DynSub>> {
+    vec![
+        Box::new(Sub {
+            name: "history",
+            strategy: strat_clean,
+            cases: (3000, 75000),
+            check,
+            max_shrink_iters: 6000,
+        }),
+        Box::new(Sub {
+            name: "partial-overlap",
+            strategy: strat_partial,
+            cases: (1000, 25000),
+            check,
+            max_shrink_iters: 6000,
+        }),
+    ]
+}
+
+// ---------------------------------------------------------------------------------------
+// dump through public getters
+
+#[derive(Clone, Debug, PartialEq)]
+pub struct DCell {
+    pub row: u32,
+    pub col: u32,
+    pub value: String,
+    pub style: Result<u32, String>,
+    pub hl: Option<String>,
+}
+
+#[derive(Clone, Debug, PartialEq)]
+pub struct DDim {
+    pub idx: u32,
+    pub size: f64,
+    pub hidden: bool,
+    /// carries something beyond the API's side-effect defaults
+    pub explicit: bool,
+}
+
+#[derive(Clone, Debug, Default, PartialEq)]
+pub struct SheetDump {
+    pub name: String,
+    pub cells: Vec<DCell>,
+    pub rows: Vec<DDim>,
+    pub cols: Vec<DDim>,
+    /// Err = a range without a start corner (never generated)
+    pub merges: Vec<Result<Rect, String>>,
+    pub comments: Vec<(u32, u32, String)>,
+    pub cfs: Vec<(i32, Vec<Result<Rect, String>>)>,
+    pub filter: Option<Result<Rect, String>>,
+}
+
+pub fn raw_rect(r: &Range) -> Result<Rect, String> {
+    let c1 = r.get_coordinate_start_col().map(|v| *v.get_num());
+    let r1 = r.get_coordinate_start_row().map(|v| *v.get_num());
+    let (Some(c1), Some(r1)) = (c1, r1) else {
+        return Err(format!("range without start corner: {:?}", r.get_range()));
+    };
+    let c2 = r.get_coordinate_end_col().map(|v| *v.get_num()).unwrap_or(c1);
+    let r2 = r.get_coordinate_end_row().map(|v| *v.get_num()).unwrap_or(r1);
+    Ok(Rect::new(r1, c1, r2, c2))
+}
+
+pub fn dump_sheet(ws: &Worksheet) -> SheetDump {
+    let mut d = SheetDump {
+        name: ws.get_name().to_string(),
+        ..Default::default()
+    };
+    for cell in ws.get_cell_collection() {
+        let co = cell.get_coordinate();
+        d.cells.push(DCell {
+            row: *co.get_row_num(),
+            col: *co.get_col_num(),
+            value: cell.get_value().to_string(),
+            style: style_tag_of(cell.get_style()),
+            hl: cell.get_hyperlink().map(|h| h.get_url().to_string()),
+        });
+    }
+    d.cells.sort_by_key(|c| (c.row, c.col));
+    let default_style = umya_spreadsheet::Style::default();
+    for r in ws.get_row_dimensions() {
+        let explicit = *r.get_height() != 0.0 || *r.get_custom_height() || *r.get_hidden() || *r.get_style() != default_style;
+        d.rows.push(DDim {
+            idx: *r.get_row_num(),
+            size: *r.get_height(),
+            hidden: *r.get_hidden(),
+            explicit,
+        });
+    }
+    d.rows.sort_by_key(|r| r.idx);
+    for c in ws.get_column_dimensions() {
+        let explicit = *c.get_width() != 8.38 || *c.get_hidden() || *c.get_best_fit() || *c.get_style() != default_style;
+        d.cols.push(DDim {
+            idx: *c.get_col_num(),
+            size: *c.get_width(),
+            hidden: *c.get_hidden(),
+            explicit,
+        });
+    }
+    d.cols.sort_by_key(|c| c.idx);
+    for m in ws.get_merge_cells() {
+        d.merges.push(raw_rect(m));
+    }
+    for c in ws.get_comments() {
+        let co = c.get_coordinate();
+        d.comments.push((*co.get_row_num(), *co.get_col_num(), c.get_text().get_text().to_string()));
+    }
+    d.comments.sort();
+    for cf in ws.get_conditional_formatting_collection() {
+        let prio = cf.get_conditional_collection().first().map(|r| *r.get_priority()).unwrap_or(-1);
+        let ranges = cf.get_sequence_of_references().get_range_collection().iter().map(raw_rect).collect();
+        d.cfs.push((prio, ranges));
+    }
+    d.filter = ws.get_auto_filter().map(|f| raw_rect(f.get_range()));
+    d
+}
+
+// ---------------------------------------------------------------------------------------
+// comparison model <-> dump
+
+pub struct Discrepancy {
+    pub obj: &'static str,
+    pub mode: String,
+    pub detail: String,
+}
+
+fn disc(obj: &'static str, mode: &str, detail: String) -> Option<Discrepancy> {
+    Some(Discrepancy {
+        obj,
+        mode: mode.to_string(),
+        detail,
+    })
+}
+
+fn grid_mode(r: &Rect) -> &'static str {
+    if r.r1 == 0 || r.c1 == 0 || r.r2 == 0 || r.c2 == 0 {
+        "row0-or-col0"
+    } else if r.r1 > r.r2 || r.c1 > r.c2 {
+        "start-after-end"
+    } else {
+        "outside-grid"
+    }
+}
+
+/// Exact multiset `expected` must be contained in `actual`; what is left over in `actual`
+/// must be explained by at most `loose` ranges of undetermined position.
+fn compare_ranges(obj: &'static str, expected: &[MRange], actual: &[Result<Rect, String>]) -> Option<Discrepancy> {
+    let mut left: Vec<Rect> = Vec::new();
+    for a in actual {
+        match a {
+            Err(e) => return disc(obj, "malformed", e.clone()),
+            Ok(r) => {
+                if !r.in_grid() {
+                    return disc(obj, grid_mode(r), format!("{} range {:?} (r1,c1,r2,c2)", obj, (r.r1, r.c1, r.r2, r.c2)));
+                }
+                left.push(*r);
+            }
+        }
+    }
+    let mut loose = 0usize;
+    let mut missing: Vec<Rect> = Vec::new();
+    for e in expected {
+        match e {
+            MRange::Loose { .. } => loose += 1,
+            MRange::Exact(r) => {
+                if let Some(i) = left.iter().position(|x| x == r) {
+                    left.remove(i);
+                } else {
+                    missing.push(*r);
+                }
+            }
+        }
+    }
+    let show = |v: &[Rect]| v.iter().map(|r| r.a1()).collect::<Vec<_>>().join(",");
+    if !missing.is_empty() && left.len() > loose {
+        return disc(obj, "misplaced", format!("expected {} at [{}], found instead [{}]", obj, show(&missing), show(&left)));
+    }
+    if !missing.is_empty() {
+        return disc(obj, "lost", format!("expected {} at [{}] not found (others: [{}])", obj, show(&missing), show(&left)));
+    }
+    if left.len() > loose {
+        return disc(obj, "unexpected", format!("unexpected {} at [{}]", obj, show(&left)));
+    }
+    None
+}
+
+pub fn compare_sheet(m: &MSheet, d: &SheetDump) -> Option<Discrepancy> {
+    if m.name != d.name {
+        return disc("sheet", "renamed", format!("sheet name {:?} != {:?}", d.name, m.name));
+    }
+    // --- cells
+    let mut seen: BTreeMap<(u32, u32), &DCell> = BTreeMap::new();
+    for c in &d.cells {
+        if c.row < 1 || c.row > MAX_ROW || c.col < 1 || c.col > MAX_COL {
+            let mode = if c.row == 0 || c.col == 0 { "row0-or-col0" } else { "outside-grid" };
+            return disc("cell", mode, format!("cell {:?} at row {} col {}", c.value, c.row, c.col));
+        }
+        let blank = c.value.is_empty() && c.style == Ok(0) && c.hl.is_none();
+        if blank {
+            continue;
+        }
+        if seen.insert((c.row, c.col), c).is_some() {
+            return disc("cell", "duplicate", format!("two cells report row {} col {}", c.row, c.col));
+        }
+    }
+    let mut missing = Vec::new();
+    for (&(r, c), mc) in &m.cells {
+        match seen.remove(&(r, c)) {
+            None => missing.push(format!("{}{}={}", col_name(c), r, value_text(mc.value))),
+            Some(dc) => {
+                if dc.value != value_text(mc.value) {
+                    return disc(
+                        "cell",
+                        "wrong-value",
+                        format!("{}{} holds {:?}, expected {:?}", col_name(c), r, dc.value, value_text(mc.value)),
+                    );
+                }
+                if dc.style != Ok(mc.style) {
+                    return disc(
+                        "cell",
+                        "wrong-style",
+                        format!("{}{} has style {:?}, expected tag {}", col_name(c), r, dc.style, mc.style),
+                    );
+                }
+                match (&mc.hl, &dc.hl) {
+                    (Hl::Unspecified, _) => {}
+                    (Hl::None, None) => {}
+                    (Hl::Tag(t), Some(u)) if *u == hl_url(*t) => {}
+                    (e, a) => {
+                        return disc(
+                            "hyperlink",
+                            "wrong-anchor",
+                            format!("{}{} has hyperlink {:?}, expected {:?}", col_name(c), r, a, e),
+                        )
+                    }
+                }
+            }
+        }
+    }
+    let extra: Vec<String> = seen.values().map(|c| format!("{}{}={}", col_name(c.col), c.row, c.value)).collect();
+    if !missing.is_empty() && !extra.is_empty() {
+        return disc("cell", "misplaced", format!("expected [{}], found instead [{}]", missing.join(","), extra.join(",")));
+    }
+    if !missing.is_empty() {
+        return disc("cell", "lost", format!("expected cells [{}] are absent", missing.join(",")));
+    }
+    if !extra.is_empty() {
+        return disc("cell", "unexpected", format!("unexpected cells [{}]", extra.join(",")));
+    }
+    // --- row / column settings
+    for (obj, dims, model, limit, size_of) in [
+        ("rowdim", &d.rows, &m.rows, MAX_ROW, dim_height as fn(u32) -> f64),
+        ("coldim", &d.cols, &m.cols, MAX_COL, dim_width as fn(u32) -> f64),
+    ] {
+        let mut have: BTreeMap<u32, &DDim> = BTreeMap::new();
+        for x in dims.iter() {
+            if x.idx < 1 || x.idx > limit {
+                let mode = if x.idx == 0 { "row0-or-col0" } else { "outside-grid" };
+                return disc(obj, mode, format!("{} entry with index {}", obj, x.idx));
+            }
+            if x.explicit {
+                if have.insert(x.idx, x).is_some() {
+                    return disc(obj, "duplicate", format!("two explicit {} entries for index {}", obj, x.idx));
+                }
+            }
+        }
+        let mut missing = Vec::new();
+        for (&i, md) in model.iter() {
+            match have.remove(&i) {
+                None => missing.push(i),
+                Some(x) => {
+                    if x.size.to_bits() != size_of(md.size).to_bits() || x.hidden != md.hidden {
+                        return disc(
+                            obj,
+                            "wrong-setting",
+                            format!("{} {} has size {} hidden {}, expected size {} hidden {}", obj, i, x.size, x.hidden, size_of(md.size), md.hidden),
+                        );
+                    }
+                }
+            }
+        }
+        let extra: Vec<u32> = have.keys().copied().collect();
+        if !missing.is_empty() && !extra.is_empty() {
+            return disc(obj, "misplaced", format!("expected settings at {:?}, found instead at {:?}", missing, extra));
+        }
+        if !missing.is_empty() {
+            return disc(obj, "lost", format!("expected settings at {:?} are absent", missing));
+        }
+        if !extra.is_empty() {
+            return disc(obj, "unexpected", format!("unexpected settings at {:?}", extra));
+        }
+    }
+    // --- merges
+    if let Some(x) = compare_ranges("merge", &m.merges, &d.merges) {
+        return Some(x);
+    }
+    // --- comments
+    let mut have = d.comments.clone();
+    for c in &have {
+        if c.0 < 1 || c.0 > MAX_ROW || c.1 < 1 || c.1 > MAX_COL {
+            let mode = if c.0 == 0 || c.1 == 0 { "row0-or-col0" } else { "outside-grid" };
+            return disc("comment", mode, format!("comment {:?} at row {} col {}", c.2, c.0, c.1));
+        }
+    }
+    let mut missing = Vec::new();
+    for c in &m.comments {
+        let want = (c.row, c.col, format!("c{}", c.tag));
+        if let Some(i) = have.iter().position(|x| *x == want) {
+            have.remove(i);
+        } else {
+            missing.push(want);
+        }
+    }
+    if !missing.is_empty() && !have.is_empty() {
+        return disc("comment", "misplaced", format!("expected {:?}, found instead {:?}", missing, have));
+    }
+    if !missing.is_empty() {
+        return disc("comment", "lost", format!("expected comments {:?} are absent", missing));
+    }
+    if !have.is_empty() {
+        return disc("comment", "unexpected", format!("unexpected comments {:?}", have));
+    }
+    // --- conditional formats (identified by the priority tag of their rule)
+    let mut have: Vec<&(i32, Vec<Result<Rect, String>>)> = d.cfs.iter().collect();
+    for cf in &m.cfs {
+        let pos = have.iter().position(|x| x.0 == cf.tag as i32);
+        let all_loose = cf.ranges.iter().all(|r| matches!(r, MRange::Loose { .. }));
+        match pos {
+            None => {
+                if !all_loose {
+                    return disc("cf", "lost", format!("conditional format #{} with ranges {:?} is absent", cf.tag, cf.ranges));
+                }
+            }
+            Some(i) => {
+                let x = have.remove(i);
+                if let Some(mut dd) = compare_ranges("cf", &cf.ranges, &x.1) {
+                    dd.detail = format!("conditional format #{}: {}", cf.tag, dd.detail);
+                    return Some(dd);
+                }
+            }
+        }
+    }
+    if !have.is_empty() {
+        return disc("cf", "unexpected", format!("unexpected conditional formats {:?}", have));
+    }
+    // --- auto filter
+    match (&m.filter, &d.filter) {
+        (None, None) => {}
+        (None, Some(x)) => return disc("filter", "unexpected", format!("unexpected auto-filter {:?}", x)),
+        (Some(MRange::Exact(r)), None) => return disc("filter", "lost", format!("auto-filter {} is absent", r.a1())),
+        (Some(MRange::Loose { .. }), None) => {}
+        (Some(e), Some(a)) => {
+            if let Some(x) = compare_ranges("filter", std::slice::from_ref(e), std::slice::from_ref(a)) {
+                return Some(x);
+            }
+        }
+    }
+    None
+}
+
+fn compare_book(book: &Spreadsheet, model: &MBook, first: usize) -> Option<(usize, Discrepancy)> {
+    let sheets = book.get_sheet_collection_no_check();
+    if sheets.len() != model.sheets.len() {
+        return Some((
+            0,
+            Discrepancy {
+                obj: "sheet",
+                mode: "count".into(),
+                detail: format!("{} sheets, expected {}", sheets.len(), model.sheets.len()),
+            },
+        ));
+    }
+    // the edited sheet first, then the others (so that a wrong edit is reported as such
+    // and an edit leaking to another sheet gets its own key)
+    let mut order: Vec<usize> = vec![first];
+    order.extend((0..sheets.len()).filter(|&i| i != first));
+    for i in order {
+        let d = dump_sheet(&sheets[i]);
+        if let Some(x) = compare_sheet(&model.sheets[i], &d) {
+            return Some((i, x));
+        }
+    }
+    None
+}
+
+// ---------------------------------------------------------------------------------------
+// the check
+
+fn op_sheet(op: &COp) -> usize {
+    match op {
+        COp::Insert { sheet, .. }
+        | COp::Remove { sheet, .. }
+        | COp::Move { sheet, .. }
+        | COp::Copy { sheet, .. }
+        | COp::SetValue { sheet, .. }
+        | COp::RemoveCell { sheet, .. } => *sheet,
+        _ => 0,
+    }
+}
+
+fn apply_model(model: &mut MBook, op: &COp) -> (bool, Vec<String>) {
+    match op {
+        COp::Insert { sheet, axis, p, n, .. } => {
+            let s = model.sheets[*sheet].insert(*axis, *p, *n);
+            (s.nontrivial(), s.labels.into_iter().collect())
+        }
+        COp::Remove { sheet, axis, p, n, .. } => {
+            let s = model.sheets[*sheet].remove(*axis, *p, *n);
+            (s.nontrivial(), s.labels.into_iter().collect())
+        }
+        COp::Move { sheet, rect, dr, dc } => {
+            let k = model.sheets[*sheet].move_range(*rect, *dr as i64, *dc as i64);
+            let overlap = rect.intersects(&rect.translate(*dr as i64, *dc as i64));
+            (k > 0, vec![if overlap { "move:overlapping".into() } else { "move:disjoint".into() }])
+        }
+        COp::Copy { sheet, rect, dr, dc } => {
+            let k = model.sheets[*sheet].copy_range(*rect, *dr as i64, *dc as i64);
+            (k > 0, vec![])
+        }
+        COp::SetValue { sheet, row, col, tag } => {
+            model.sheets[*sheet].set_value(*row, *col, *tag);
+            (false, vec![])
+        }
+        COp::RemoveCell { sheet, row, col } => {
+            model.sheets[*sheet].remove_cell(*row, *col);
+            (false, vec![])
+        }
+        _ => (false, vec![]),
+    }
+}
+
+fn near_limit(op: &COp) -> bool {
+    match op {
+        COp::Insert { axis, p, n, .. } | COp::Remove { axis, p, n, .. } => *p as u64 + *n as u64 + 16 > axis.limit() as u64,
+        COp::Move { rect, dr, dc, .. } | COp::Copy { rect, dr, dc, .. } => {
+            rect.r2 as i64 + *dr as i64 + 8 > MAX_ROW as i64 || rect.c2 as i64 + *dc as i64 + 8 > MAX_COL as i64
+        }
+        COp::SetValue { row, col, .. } => *row + 8 > MAX_ROW || *col + 8 > MAX_COL,
+        _ => false,
+    }
+}
+
+fn check(case: &Case, obs: &mut Obs) -> Verdict {
+    let mut tags = Tags::default();
+    let built = guard(|| build_book(&case.sheets, &mut tags));
+    let (mut book, mut model) = match built {
+        Ok(x) => x,
+        Err(p) => return Verdict::fail(format!("build/panic:{}", p.site()), p.short()),
+    };
+    if let Some((i, d)) = compare_book(&book, &model, 0) {
+        // the builder and the model disagree before any edit: a harness problem
+        return Verdict::fail(
+            format!("harness/build-mismatch/{}/{}", d.obj, d.mode),
+            format!("sheet {}: {}", i, d.detail),
+        );
+    }
+    let nsheets = model.sheets.len();
+    if nsheets >= 2 {
+        obs.class("multi-sheet");
+    }
+    if case.partial {
+        obs.class("stratum:partial-overlap");
+    }
+    let mut trace: Vec<String> = Vec::new();
+    let mut steered_total = 0u32;
+    for (i, aop) in case.ops.iter().enumerate() {
+        let sheet = pick_idx(aop.sheet, nsheets);
+        let occ = Occ::from_model(&model.sheets[sheet]);
+        let mut cx = ResolveCtx {
+            occ: &occ,
+            sheet,
+            allow_partial: case.partial,
+            tags: &mut tags,
+            steered: 0,
+            bulk_limit: 0,
+        };
+        let resolved = resolve(aop, &mut cx);
+        steered_total += cx.steered;
+        let op = match resolved {
+            Resolved::Skip(why) => {
+                obs.class(format!("skipped:{}", why));
+                continue;
+            }
+            Resolved::Op(op) => op,
+        };
+        let kind = op.kind_name();
+        let level = match &op {
+            COp::Insert { book_level, .. } | COp::Remove { book_level, .. } => {
+                if *book_level {
+                    "book-level"
+                } else {
+                    "sheet-level"
+                }
+            }
+            _ => "",
+        };
+        trace.push(format!("#{} {:?}", i, op));
+        let ctxt = |trace: &Vec<String>| trace.join("; ");
+        // snapshot for the metamorphic check (remove undoes insert), judged after the edit itself
+        let pre = if matches!(op, COp::Insert { .. }) { Some((book.clone(), model.clone())) } else { None };
+        // the edit itself
+        if let Err(pn) = guard(|| apply_lib(&mut book, &op)) {
+            let feature = panic_feature(&model.sheets[op_sheet(&op)], &op);
+            return Verdict::fail(
+                format!("{}/{}/panic:{}", kind, feature, pn.site()),
+                format!("{} ; history: {}", pn.short(), ctxt(&trace)),
+            );
+        }
+        let clips = match &op {
+            COp::Remove { sheet, axis, p, n, .. } if case.partial => model.sheets[*sheet].partial_clips(*axis, *p, *n),
+            _ => Vec::new(),
+        };
+        let (nt, labels) = apply_model(&mut model, &op);
+        obs.nontrivial(nt);
+        obs.class(format!("op:{}", kind));
+        if !level.is_empty() {
+            obs.class(format!("{}:{}", level, kind));
+        }
+        for l in labels {
+            obs.class(format!("{}:{}", kind, l));
+        }
+        if near_limit(&op) {
+            obs.class("near-grid-limit");
+        }
+        let target = op_sheet(&op);
+        if let Some((si, d)) = compare_book(&book, &model, target) {
+            let key = if si != target {
+                format!("{}:{}/other-sheet-changed", level, kind)
+            } else {
+                format!("{}/{}/{}", d.obj, kind, d.mode)
+            };
+            return Verdict::fail(
+                key,
+                format!("after op #{} on sheet {}, sheet {} differs from the reference grid: {} ; history: {}", i, target, si, d.detail, ctxt(&trace)),
+            );
+        }
+        // informational (not judged): did a partly overlapped range keep its surviving part?
+        if !clips.is_empty() {
+            let d = dump_sheet(book.get_sheet(&target).unwrap());
+            for (kind, rect) in &clips {
+                let found = match *kind {
+                    "merge" => d.merges.iter().any(|x| x.as_ref() == Ok(rect)),
+                    "cf" => d.cfs.iter().any(|c| c.1.iter().any(|x| x.as_ref() == Ok(rect))),
+                    _ => d.filter.as_ref().map(|x| x.as_ref() == Ok(rect)).unwrap_or(false),
+                };
+                obs.class(format!(
+                    "partly-overlapped-{}:{}",
+                    kind,
+                    if found { "surviving-part-kept" } else { "other-result" }
+                ));
+            }
+        }
+        // metamorphic: remove(p,n) after insert(p,n) restores the pre-insert projection
+        if let (Some((snapshot, model0)), COp::Insert { sheet, axis, book_level, by_letter, p, n }) = (pre, &op) {
+            let undo = COp::Remove {
+                sheet: *sheet,
+                axis: *axis,
+                book_level: *book_level,
+                by_letter: *by_letter,
+                p: *p,
+                n: *n,
+            };
+            let r = guard(|| {
+                let mut c = snapshot;
+                apply_lib(&mut c, &op);
+                apply_lib(&mut c, &undo);
+                c
+            });
+            match r {
+                Err(pn) => {
+                    return Verdict::fail(
+                        format!("{}+undo/panic:{}", kind, pn.site()),
+                        format!("{} ; history: {}", pn.short(), ctxt(&trace)),
+                    )
+                }
+                Ok(c) => {
+                    if let Some((si, d)) = compare_book(&c, &model0, *sheet) {
+                        let scope = if si != *sheet { "other-sheet" } else { "edited-sheet" };
+                        return Verdict::fail(
+                            format!("undo/{}/{}/{}/{}", kind, scope, d.obj, d.mode),
+                            format!("remove(p,n) after insert(p,n) is not the identity on sheet {}: {} ; history: {}", si, d.detail, ctxt(&trace)),
+                        );
+                    }
+                }
+            }
+        }
+        // move leaves the source rectangle (minus the destination) empty
+        if let COp::Move { sheet, rect, dr, dc } = &op {
+            let dest = rect.translate(*dr as i64, *dc as i64);
+            let ws = book.get_sheet(sheet).unwrap();
+            for r in rect.r1..=rect.r2 {
+                for c in rect.c1..=rect.c2 {
+                    if dest.contains(r, c) {
+                        continue;
+                    }
+                    if let Some(cell) = ws.get_cell((c, r)) {
+                        if !cell.get_value().is_empty() {
+                            return Verdict::fail(
+                                "move/source-not-empty",
+                                format!("{}{} still holds {:?} ; history: {}", col_name(c), r, cell.get_value(), ctxt(&trace)),
+                            );
+                        }
+                    }
+                }
+            }
+        }
+    }
+    if steered_total > 0 {
+        obs.class("steered-away-from-partial-overlap");
+    }
+    Verdict::Pass
+}
+
+/// Names the input feature a panic is most plausibly tied to (from the model, before the
+/// edit): keeps panic keys narrow.
+fn panic_feature(m: &MSheet, op: &COp) -> &'static str {
+    if let COp::Remove { axis, p, n, .. } = op {
+        if m.partial_overlaps(*axis, *p, *n) > 0 {
+            return "range-partly-in-band";
+        }
+        if !m.comments.is_empty() {
+            return "sheet-with-comments";
+        }
+    }
+    "plain"
 }
